@@ -42,7 +42,15 @@ impl MetricSink for Sink {
             Some(k) => Err(tok_err(k, *TOK.lock().unwrap())),
         }
     }
+    /// the macros never flush the sink
+    fn flush(&self) -> io::Result<()> {
+        EVENTS.lock().unwrap().push("F".to_string());
+        Ok(())
+    }
 }
+
+/// set for one invocation (`hnest`): the client's error handler itself invokes a macro, once
+static HANDLER_EMITS: std::sync::atomic::AtomicBool = std::sync::atomic::AtomicBool::new(false);
 
 fn merr_repr(e: &MetricError) -> String {
     use std::error::Error;
@@ -127,6 +135,22 @@ fn do_invocation(entry: &str, key: &str, valt: &str, tags: &Vec<(String, String)
         "dist_vu64" => invoke!(statsd_distribution, key, vu(), tags),
         "dist_vf64" => invoke!(statsd_distribution, key, vf(), tags),
         "set_i64" => invoke!(statsd_set, key, valt.parse::<i64>().unwrap(), tags),
+        "hnest" => {
+            // the handler of the global client invokes a macro itself (its metric is accepted)
+            HANDLER_EMITS.store(true, std::sync::atomic::Ordering::SeqCst);
+            let v = valt.parse::<u64>().unwrap();
+            statsd_gauge!(
+                {
+                    ev(0);
+                    key
+                },
+                {
+                    ev(1);
+                    v
+                }
+            );
+            HANDLER_EMITS.store(false, std::sync::atomic::Ordering::SeqCst);
+        }
         "nest" => {
             let v = valt.parse::<u64>().unwrap();
             statsd_gauge!(
@@ -154,7 +178,12 @@ fn run_child(line: &str) -> String {
     let install = |f: &Vec<&str>| {
         let pfx = s_of(f[1]);
         let mut b = StatsdClient::builder(&pfx, Sink)
-            .with_error_handler(|e| EVENTS.lock().unwrap().push(format!("H{}", merr_repr(&e))));
+            .with_error_handler(|e| {
+                EVENTS.lock().unwrap().push(format!("H{}", merr_repr(&e)));
+                if HANDLER_EMITS.swap(false, std::sync::atomic::Ordering::SeqCst) {
+                    statsd_count!("from.handler", 1i64);
+                }
+            });
         if f[2] != "-" {
             for t in f[2].split(',') {
                 if let Some(v) = t.strip_prefix('~') {
@@ -209,6 +238,9 @@ fn run_child(line: &str) -> String {
                 s.push_back(None); // the inner invocation's metric is accepted
             }
             s.push_back(if p[4] == "a" { None } else { Some(p[4][1..].parse().unwrap()) });
+            if p[0] == "hnest" {
+                s.push_back(None); // the handler's own metric is accepted
+            }
             *TOK.lock().unwrap() = i as u64 + 1;
             EVENTS.lock().unwrap().clear();
         }
@@ -238,13 +270,19 @@ fn run_case_in_child(case: &str) -> String {
         .arg("child")
         .stdin(std::process::Stdio::piped())
         .stdout(std::process::Stdio::piped())
-        .stderr(std::process::Stdio::null())
+        .stderr(std::process::Stdio::piped())
         .spawn()
         .unwrap();
     child.stdin.take().unwrap().write_all(case.as_bytes()).unwrap();
     let mut out = String::new();
     child.stdout.take().unwrap().read_to_string(&mut out).unwrap();
+    let mut errout = String::new();
+    child.stderr.take().unwrap().read_to_string(&mut errout).unwrap();
     let st = child.wait().unwrap();
+    // failures go to the client's error handler and nowhere else: nothing may be printed
+    if !errout.trim().is_empty() || out.trim().lines().count() > 1 {
+        return format!("{};PRINTED", out.trim().lines().last().unwrap_or(""));
+    }
     if !st.success() && out.trim().is_empty() {
         return "child-crashed".to_string();
     }
@@ -342,10 +380,35 @@ fn main() {
                 let sink = if rng.chance(30) { format!("r{}", rng.below(16)) } else { "a".to_string() };
                 invs.push(format!("nest/{}/{}/-/{}", h(*rng.pick(&strs)), rng.below(100), sink));
             }
+            if (j + c) % 11 == 5 {
+                invs.push(format!("hnest/{}/{}/-/r{}", h(*rng.pick(&strs)), rng.below(100), rng.below(16)));
+            }
         }
         let case = format!("{} {} {} {} {}", if c % 2 == 1 { "macn" } else { "mac" }, prefix, if tags.is_empty() { "-".to_string() } else { tags.join(",") }, cid, invs.join(";"));
         writeln!(out, "{} => {}", case, run_case_in_child(&case)).unwrap();
         count += 1;
+    }
+    // the macros expanded inside a crate built with cfg(test) (harness/tests/macros_cfg_test.rs, built by the
+    // orchestrator and copied next to this binary)
+    {
+        let mut exe = std::env::current_exe().unwrap();
+        exe.pop();
+        exe.push("macros_cfg_test");
+        match std::process::Command::new(&exe).args(["--nocapture", "--test-threads=1"]).stderr(std::process::Stdio::null()).output() {
+            Ok(o) => {
+                for l in String::from_utf8_lossy(&o.stdout).lines() {
+                    // libtest prints "test … ..." on the same line before the first println: keep the case part
+                    if let Some(i) = l.find("mact ") {
+                        writeln!(out, "{}", &l[i..]).unwrap();
+                        count += 1;
+                    }
+                }
+            }
+            Err(_) => {
+                writeln!(out, "mact unset => test-binary-missing").unwrap();
+                count += 1;
+            }
+        }
     }
     eprintln!("macros: {} cases", count);
 }
